@@ -7,6 +7,7 @@ CONSTANTS
   ChildOps = {"deq"}
   WrongOps = {}
   ChgOK = FALSE
+  HostileOK = FALSE
   NSites = 2
   NTests = 2
   MaxStmts = 2
